@@ -234,6 +234,24 @@ func runC07(c *Ctx) {
 		r.Check("R07.3", FuncName(body), s.Desc+" may write a comma: an object follows on every path", in.Pos(), ok, why)
 	}
 	r.Floor("R07.3", "array-level writes that may contain a comma", ncomma, 1)
+	// ... and the other way round: a comma is chosen only where an object has already been written - no comma before
+	// the first object, whatever precedes it (separators, nothing)
+	{
+		nsel := 0
+		for _, s := range sites {
+			in := s.Call.(ssa.Instruction)
+			if isEmit(in) {
+				continue
+			}
+			for _, a := range sinkArgs(s, wv) {
+				for _, sel := range commaSelections(a, in, map[ssa.Value]bool{}) {
+					nsel++
+					ok, why := emittedBefore(body, sel, isEmit)
+					r.Check("R07.3", FuncName(body), fmt.Sprintf("comma selection #%d for %s happens only after an object was written", nsel, s.Desc), in.Pos(), ok, why)
+				}
+			}
+		}
+	}
 	// brackets: first write "[", last "]"
 	{
 		first, last := "", ""
@@ -652,4 +670,164 @@ func boolAssertOKResult(f *ssa.Function, idx int, depth int) bool {
 		}
 	}
 	return some
+}
+
+// commaSelections: the blocks in which a constant containing a comma enters the value v written at `at`:
+// the block of a concatenation with such a constant, the predecessor that brings one into a phi, the write itself.
+func commaSelections(v ssa.Value, at ssa.Instruction, seen map[ssa.Value]bool) []*ssa.BasicBlock {
+	if seen[v] {
+		return nil
+	}
+	seen[v] = true
+	hasComma := func(x ssa.Value) bool {
+		s, ok := constString(x)
+		return ok && strings.Contains(s, ",")
+	}
+	switch x := v.(type) {
+	case *ssa.Const:
+		if hasComma(x) {
+			return []*ssa.BasicBlock{at.Block()}
+		}
+	case *ssa.Phi:
+		var out []*ssa.BasicBlock
+		for k, e := range x.Edges {
+			if hasComma(e) {
+				out = append(out, x.Block().Preds[k])
+				continue
+			}
+			out = append(out, commaSelections(e, at, seen)...)
+		}
+		return out
+	case *ssa.BinOp:
+		var out []*ssa.BasicBlock
+		for _, side := range []ssa.Value{x.X, x.Y} {
+			if hasComma(side) {
+				out = append(out, x.Block())
+			} else {
+				out = append(out, commaSelections(side, at, seen)...)
+			}
+		}
+		return out
+	case *ssa.MakeInterface:
+		return commaSelections(x.X, at, seen)
+	}
+	return nil
+}
+
+// emittedBefore: block b runs only after an object emission: an emit call dominates it (earlier in the same pass),
+// or it is guarded by a condition that can only hold once an emission has happened: a boolean the loop carries that
+// starts false (true) and is flipped only behind an emission, or a counter that starts at 0 and is raised only
+// behind an emission, compared with 0.
+func emittedBefore(fn *ssa.Function, b *ssa.BasicBlock, isEmit func(ssa.Instruction) bool) (bool, string) {
+	var emits []ssa.Instruction
+	eachInstr(fn, func(in ssa.Instruction) {
+		if isEmit(in) {
+			emits = append(emits, in)
+		}
+	})
+	behindEmit := func(blk *ssa.BasicBlock) bool {
+		for _, e := range emits {
+			if e.Block() == blk || e.Block().Dominates(blk) {
+				// within one pass of the loop: the emission's block dominates and lies in the same loop body
+				if innermostLoopHeader(e.Block()) == innermostLoopHeader(blk) || innermostLoopHeader(e.Block()) == nil {
+					return true
+				}
+			}
+		}
+		return false
+	}
+	if len(b.Instrs) > 0 {
+		for _, e := range emits {
+			if instrDominates(e, b.Instrs[0]) && (innermostLoopHeader(e.Block()) == innermostLoopHeader(b) || innermostLoopHeader(e.Block()) == nil) {
+				return true, ""
+			}
+		}
+	}
+	// the flag / counter forms
+	carried := func(phi *ssa.Phi, changedOK func(e ssa.Value) bool) (entry ssa.Value, ok bool) {
+		hdr := phi.Block()
+		if !isLoopHeaderBlock(hdr) {
+			return nil, false
+		}
+		for k, pred := range hdr.Preds {
+			e := phi.Edges[k]
+			if !hdr.Dominates(pred) {
+				if entry != nil && entry != e {
+					return nil, false
+				}
+				entry = e
+				continue
+			}
+			// the value coming round: taken apart through the merges inside the body
+			var visit func(v ssa.Value, via *ssa.BasicBlock, depth int) bool
+			visit = func(v ssa.Value, via *ssa.BasicBlock, depth int) bool {
+				if v == ssa.Value(phi) {
+					return true // unchanged on this path
+				}
+				if p2, isPhi := v.(*ssa.Phi); isPhi && p2 != phi && depth < 4 && hdr.Dominates(p2.Block()) {
+					for j, e2 := range p2.Edges {
+						if !visit(e2, p2.Block().Preds[j], depth+1) {
+							return false
+						}
+					}
+					return true
+				}
+				return changedOK(v) && behindEmit(via)
+			}
+			if !visit(e, pred, 0) {
+				return nil, false
+			}
+		}
+		return entry, entry != nil
+	}
+	for _, cf := range expandConds(dominatingConds(b)) {
+		cond, val := cf.Cond, cf.Val
+		if u, isU := cond.(*ssa.UnOp); isU && u.Op == token.NOT {
+			cond, val = u.X, !val
+		}
+		// a boolean flag
+		if phi, isPhi := cond.(*ssa.Phi); isPhi {
+			entry, ok := carried(phi, func(e ssa.Value) bool { _, isK := constBool(e); return isK })
+			if ok {
+				if b0, isK := constBool(entry); isK && b0 != val {
+					// the branch is taken with the flag unlike its initial value: it was flipped, behind an emission
+					flipsOnly := true
+					for k, pred := range phi.Block().Preds {
+						if phi.Block().Dominates(pred) {
+							if kv, isC := constBool(phi.Edges[k]); isC && kv == b0 {
+								continue
+							}
+						}
+					}
+					if flipsOnly {
+						return true, ""
+					}
+				}
+			}
+		}
+		// a counter compared with zero
+		if bo, isB := cond.(*ssa.BinOp); isB {
+			var n ssa.Value
+			positive := false
+			if k, isK := constInt(bo.Y); isK {
+				n = bo.X
+				positive = (bo.Op == token.GTR && k == 0 && val) || (bo.Op == token.NEQ && k == 0 && val) || (bo.Op == token.GEQ && k == 1 && val) ||
+					(bo.Op == token.EQL && k == 0 && !val) || (bo.Op == token.LEQ && k == 0 && !val) || (bo.Op == token.LSS && k == 1 && !val)
+			}
+			if phi, isPhi := n.(*ssa.Phi); isPhi && positive {
+				entry, ok := carried(phi, func(e ssa.Value) bool {
+					add, isAdd := e.(*ssa.BinOp)
+					if !isAdd || add.Op != token.ADD {
+						return false
+					}
+					k, isK := constInt(add.Y)
+					return isK && k >= 1 && (add.X == ssa.Value(phi) || true)
+				})
+				if k0, isK := constInt(entry); ok && isK && k0 == 0 {
+					return true, ""
+				}
+			}
+		}
+	}
+	return false, "the comma is chosen under a condition that does not say an object has been written (a row index also counts separator rows; a flag must be raised only behind an emission): a comma can precede the first object"
 }
